@@ -22,6 +22,7 @@ Two enumerators (both run inside worker processes, a case = a subtree or a BFS):
 from __future__ import annotations
 
 import itertools
+import re
 
 from ..rtfreader.reader import parse
 from ..spec import docspec
@@ -126,8 +127,11 @@ def spec_of(gamma: dict, hist) -> dict:
 # --------------------------------------------------------------------------- observation
 
 
+_UVALS = re.compile(r"U(\d+)v(-?\d+)")
+
+
 class Obs:
-    __slots__ = ("pages", "error", "doc", "built", "n")
+    __slots__ = ("pages", "error", "doc", "built", "n", "divider_text")
 
     def __init__(self):
         self.pages = []  # list of list of (role, info, lines)
@@ -135,6 +139,7 @@ class Obs:
         self.doc = None
         self.built = None
         self.n = 0
+        self.divider_text = False
 
     def data_pages(self):
         return [[info[1] for role, info, _ in pg if role == "data"] for pg in self.pages]
@@ -182,6 +187,11 @@ def observe(gamma: dict, hist, keep_doc: bool = False) -> Obs:
             if role == "blank":
                 continue
             lines = row_lines(blk) if blk.kind == "row" else 1
+            txt = blk.text if blk.kind == "para" else (" ".join(blk.texts) if blk.kind == "row" else "")
+            if "-----" in txt:
+                o.divider_text = True
+            if role == "subline_by":  # all values named by the heading paragraph, outer first
+                info = tuple(info) + ([int(v) for _, v in _UVALS.findall(txt)],)
             items.append((role, info, lines))
         o.pages.append(items)
     if keep_doc:
@@ -242,3 +252,107 @@ def greedy_pages(costs, forced, K, top_cost=None):
     if cur:
         pages.append(cur)
     return pages
+
+
+# --------------------------------------------------------------------------- generic drivers
+
+
+def explore(gamma, case, visit, events=None, keep_doc=False):
+    """Run one work unit on the real code and call ``visit(hist, obs, parent_obs)`` for every
+    history executed.  case["mode"]:
+      'unmerged' : prefix + every extension up to case['depth'] (DFS)
+      'bfs'      : breadth-first closure over canon() states to a fixpoint (caps: max_states, max_len)
+      'list'     : the explicit histories in case['histories']
+    Returns dict(observations, states=set of abstract states, trans=set of (s, e, broke, s2), capped)."""
+    events = [tuple(e) for e in (events or case.get("events") or alphabet(gamma, case.get("divider", False)))]
+    stats = {"observations": 0, "states": set(), "trans": set(), "capped": False, "max_len": 0}
+
+    def step(hist, parent_obs, parent_state):
+        obs = observe(gamma, hist, keep_doc=keep_doc)
+        stats["observations"] += 1
+        stats["max_len"] = max(stats["max_len"], len(hist))
+        visit(hist, obs, parent_obs)
+        if obs.error:
+            return obs, None
+        s = canon(gamma, hist, obs)
+        stats["states"].add(s)
+        if parent_state is not None and parent_obs is not None:
+            stats["trans"].add((parent_state, hist[-1], len(obs.pages) > len(parent_obs.pages), s))
+        return obs, s
+
+    mode = case["mode"]
+    if mode == "list":
+        for h in case["histories"]:
+            step(tuple(tuple(e) for e in h), None, None)
+    elif mode == "unmerged":
+        prefix = tuple(tuple(e) for e in case["prefix"])
+        obs, st = None, None
+        for k in range(1, len(prefix) + 1):
+            obs, st = step(prefix[:k], obs, st)
+            if obs.error:
+                return stats
+
+        def dfs(h, obs, st, d):
+            if d <= 0:
+                return
+            for e in events:
+                o2, s2 = step(h + (e,), obs, st)
+                if s2 is not None:
+                    dfs(h + (e,), o2, s2, d - 1)
+
+        dfs(prefix, obs, st, case["depth"])
+    elif mode == "bfs":
+        max_states, max_len = case.get("max_states", 400), case.get("max_len", 40)
+        seen, frontier = {}, []
+        for e in first_events(gamma):
+            o, s = step((e,), None, None)
+            if s is not None and s not in seen:
+                seen[s] = ((e,), o)
+                frontier.append(s)
+        while frontier:
+            nxt = []
+            for s in frontier:
+                h, o = seen[s]
+                if len(h) >= max_len:
+                    stats["capped"] = True
+                    continue
+                for e in events:
+                    o2, s2 = step(h + (e,), o, s)
+                    if s2 is not None and s2 not in seen:
+                        if len(seen) >= max_states:
+                            stats["capped"] = True
+                            continue
+                        seen[s2] = (h + (e,), o2)
+                        nxt.append(s2)
+            frontier = nxt
+    else:
+        raise ValueError(mode)
+    return stats
+
+
+def split_cases(gamma, depth, bfs=True, divider=False, bfs_caps=(400, 40), split_at=6):
+    """Work units covering all histories of gamma up to `depth` (+ the BFS closure)."""
+    evs = alphabet(gamma, divider)
+    firsts = first_events(gamma)
+    cases = []
+    if depth >= 4 and len(evs) >= split_at:
+        for f in firsts:
+            cases.append({"gamma": gamma, "mode": "unmerged", "prefix": [list(f)], "depth": 0, "divider": divider})
+            for e in evs:
+                cases.append({"gamma": gamma, "mode": "unmerged", "prefix": [list(f), list(e)], "depth": depth - 2, "divider": divider})
+    else:
+        for f in firsts:
+            cases.append({"gamma": gamma, "mode": "unmerged", "prefix": [list(f)], "depth": depth - 1, "divider": divider})
+    if bfs:
+        cases.append({"gamma": gamma, "mode": "bfs", "max_states": bfs_caps[0], "max_len": bfs_caps[1], "divider": divider})
+    return cases
+
+
+def runs_history(run_lengths, level_of_run, height=1):
+    """History from explicit group runs: run_lengths[i] rows, the run starts with a change at
+    level_of_run[i] (ignored for the first run)."""
+    h = []
+    for i, (n, lv) in enumerate(zip(run_lengths, level_of_run)):
+        for j in range(n):
+            h.append((height, (lv if (j == 0 and i > 0) else 0), 0))
+    return h
